@@ -134,3 +134,28 @@ Example C14_finish_fills_then_ends :
   | None => False
   end.
 Proof. vm_compute. repeat split; reflexivity. Qed.
+
+(* ... and the progress clause at level 0: after ANY schedule of deflate() calls that has not ended the stream, a call
+   given a non-empty output buffer and either input or a flush request that reports MZ_OK has consumed at least one
+   byte or delivered at least one byte (an empty output buffer is refused: C14_empty_output_refused) *)
+Theorem C14_level0_call_makes_progress_partial :
+  forall (data : list N) (flags wb : N) (sched : list (N * N * N)) c rest acc n m out_len f code ncons out c',
+  hasf flags FLAG_RAW = true -> wb <= 15 ->
+  Forall (fun it => legal_mz_flush (snd it)) sched -> legal_mz_flush f ->
+  N.of_nat (length data) + 259 < 2 ^ 40 ->
+  dreach (comp_new flags wb) data sched [] 0 = Some (c, rest, acc, n) ->
+  firstn (N.to_nat m) rest <> [] \/ f <> 0 ->
+  deflate c (firstn (N.to_nat m) rest) out_len f = Ret (DRet code ncons out c') -> code = D_MZ_OK ->
+  0 < ncons \/ out <> [].
+Proof. exact level0_deflate_call_makes_progress. Qed.
+
+Example C14_progress_one_byte_at_a_time :
+  match dreach (comp_new 528384 15) (map (fun i => N.of_nat i mod 251) (seq 0 300)) [(100, 7, 0); (100, 1, 2); (0, 1, 2)] [] 0 with
+  | Some (c, rest, acc, n) =>
+      match deflate c rest 1 0 with
+      | Ret (DRet code ncons out _) => code = D_MZ_OK /\ ncons = 0 /\ length out = 1%nat /\ length acc = 2%nat
+      | _ => False
+      end
+  | None => False
+  end.
+Proof. vm_compute. repeat split; reflexivity. Qed.
